@@ -110,6 +110,20 @@ pub fn judge_dictation(ls: &LangSet, code: &str, d: &str) -> (bool, Option<Strin
     (false, None)
 }
 
+/// English: the zeros dictated as the letter `o` (two or more digits, so that every `o` has a digit word or another `o`
+/// next to it)
+pub fn judge_dictation_o(ls: &LangSet, d: &str) -> Option<String> {
+    let api = ls.api("en");
+    let digits = spell::info("en").digits;
+    let text: String = d.bytes().map(|b| if b == b'0' { "o" } else { digits[(b - b'0') as usize] }).collect::<Vec<_>>().join(" ");
+    let out = api.replace(&text, 0.0);
+    let expected = group_digits(d);
+    if out != expected {
+        return Some(format!("replace_numbers_in_text({:?}, 0) = {:?}, expected {:?}", text, out, expected));
+    }
+    None
+}
+
 pub fn run(ctx: &Ctx) -> Outcome {
     let max_len_exhaustive: usize = if ctx.quick() { 5 } else { 6 };
     let n_random = ctx.n(300_000, 3_000_000);
@@ -159,6 +173,13 @@ pub fn run(ctx: &Ctx) -> Outcome {
                     if let Some(msg) = fail {
                         rep.violation(&format!("{}:dictation:{}", code, d.len()), jobj! {"kind" => "dictation", "lang" => code, "d" => d.as_str()}, format!("[{} d={}] {}", code, d, msg));
                     }
+                    if code == "en" && len >= 2 && d.contains('0') {
+                        rep.eval(hash_bytes(&[b"en-dict-o", d.as_bytes()]), true);
+                        rep.count("dictation_with_letter_o");
+                        if let Some(msg) = judge_dictation_o(&ls, &d) {
+                            rep.violation(&format!("en:dictation-o:{}", d.len()), jobj! {"kind" => "dictation-o", "lang" => "en", "d" => d.as_str()}, format!("[en d={} zeros as `o`] {}", d, msg));
+                        }
+                    }
                     x += nw as u64;
                 }
             }
@@ -184,7 +205,7 @@ pub fn run(ctx: &Ctx) -> Outcome {
             }
         }
     });
-    let rule = format!("pairs: every (a,b) in [0,99]^2 x {{space, conjunction}} x 7 languages (exhaustive, 140 000 cases), allowed outcomes = both numbers in order, the zero-prefixed form for a = 0, or the digits of a c < 10000 whose morpheme sequence (any claimed variant, conjunction ignored) equals morphemes(a)+morphemes(b); dictation: every digit string of length <= {} and random ones of length 5..8, expected = grouping rule of the statement; texts whose ambiguity annotation flags a token are skipped and counted", max_len_exhaustive);
+    let rule = format!("pairs: every (a,b) in [0,99]^2 x {{space, conjunction}} x 7 languages (exhaustive, 140 000 cases), allowed outcomes = both numbers in order, the zero-prefixed form for a = 0, or the digits of a c < 10000 whose morpheme sequence (any claimed variant, conjunction ignored) equals morphemes(a)+morphemes(b); dictation: every digit string of length <= {} (English also with the zeros dictated as `o`) and random ones of length 5..8, expected = grouping rule of the statement; texts whose ambiguity annotation flags a token are skipped and counted", max_len_exhaustive);
     finish(ctx, rep, &rule, &["the conjunction is ignored when comparing morpheme sequences (the library documents tolerance for a missing/extra conjunction; the property is about arithmetic fusion)"], vec![("pairs_exhaustive".into(), J::Bool(true))])
 }
 
@@ -193,6 +214,7 @@ pub fn replay(case: &J) -> Vec<String> {
     let code = case.str_of("lang");
     match case.str_of("kind").as_str() {
         "dictation" => judge_dictation(&ls, &code, &case.str_of("d")).1.into_iter().collect(),
+        "dictation-o" => judge_dictation_o(&ls, &case.str_of("d")).into_iter().collect(),
         _ => {
             let a = case.get("a").and_then(|x| x.as_i64()).unwrap_or(0) as u64;
             let b = case.get("b").and_then(|x| x.as_i64()).unwrap_or(0) as u64;
